@@ -18,53 +18,26 @@ Proof. destruct g; simpl; tauto. Qed.
 Lemma translator_clean : translator_problems = 0.
 Proof. reflexivity. Qed.
 
-(* every gate but SINDIR agrees; by computation over the whole table, lifted *)
-Lemma gates_ok_except_sindir :
-  forallb (fun g => gname_eqb g T_SINDIR || gate_ok g) all_gnames = true.
+(* every gate agrees; by computation over the whole table, lifted *)
+Lemma gates_ok_all : forallb gate_ok all_gnames = true.
 Proof. vm_compute. reflexivity. Qed.
 
+Lemma gates_agree_all : forall g, code_gate g = Some (spec_gate g).
+Proof.
+  intro g.
+  pose proof (proj1 (forallb_forall _ _) gates_ok_all g (all_gnames_complete g)) as A.
+  unfold gate_ok in A. destruct (code_gate g) as [v|]; [|discriminate].
+  apply Nat.eqb_eq in A. subst. reflexivity.
+Qed.
+
+(* kept under its old name for NamesProofs.v *)
 Lemma gates_partial : forall g, g <> T_SINDIR -> code_gate g = Some (spec_gate g).
-Proof.
-  intros g H.
-  pose proof (proj1 (forallb_forall _ _) gates_ok_except_sindir g (all_gnames_complete g)) as A.
-  apply orb_prop in A. destruct A as [A|A].
-  - apply gname_eqb_eq in A. contradiction.
-  - unfold gate_ok in A. destruct (code_gate g) as [v|]; [|discriminate].
-    apply Nat.eqb_eq in A. subst. reflexivity.
-Qed.
+Proof. intros g _. apply gates_agree_all. Qed.
 
-(* SINDIR: either the gate of the pinned tree (2) or the Standards' (10) *)
-Lemma gates_sindir : code_gate T_SINDIR = Some 2 \/ code_gate T_SINDIR = Some (spec_gate T_SINDIR).
-Proof. first [left; vm_compute; reflexivity | right; vm_compute; reflexivity]. Qed.
-
-Definition gates_agree_statement : Prop := forall g, code_gate g = Some (spec_gate g).
-
-(* on any tree the statement is decided by computation *)
-Lemma gates_decided :
-  gates_agree_statement \/ (exists g, code_gate g <> Some (spec_gate g)).
-Proof.
-  first
-    [ right; exists T_SINDIR; vm_compute; discriminate
-    | left; intro g; destruct (gname_eqb g T_SINDIR) eqn:E;
-      [ apply gname_eqb_eq in E; subst; vm_compute; reflexivity
-      | apply gates_partial; intro; subst; discriminate ] ].
-Qed.
-
-(* consequence for the parser: outside SINDIR, a feature applies in mode
-   (pedantic, standards) exactly when the Standards say so *)
+(* consequence for the parser: a feature applies in mode (pedantic, standards)
+   exactly when the Standards say so *)
 Lemma applies_agree : forall pedantic standards g,
-  g <> T_SINDIR -> code_applies pedantic standards g = spec_applies pedantic standards g.
+  code_applies pedantic standards g = spec_applies pedantic standards g.
 Proof.
-  intros p s g H. unfold code_applies, spec_applies, applies. rewrite (gates_partial g H). reflexivity.
-Qed.
-
-(* ... and SINDIR is accepted at least wherever the Standards accept it *)
-Lemma sindir_superset : forall pedantic standards,
-  spec_applies pedantic standards T_SINDIR = true -> code_applies pedantic standards T_SINDIR = true.
-Proof.
-  intros p s H. unfold code_applies, spec_applies, applies, pvers_ge in *.
-  destruct gates_sindir as [E|E]; rewrite E; [|assumption].
-  destruct p; [|reflexivity].
-  change (spec_gate T_SINDIR) with 10 in H. cbn [negb orb] in *.
-  apply Nat.leb_le in H. apply Nat.leb_le. lia.
+  intros p s g. unfold code_applies, spec_applies, applies. rewrite (gates_agree_all g). reflexivity.
 Qed.
